@@ -187,13 +187,13 @@ def shard_items(items, cost, threshold, nshards=6):
     return out
 
 
-def run_items(ctx, items, worker, sample_every=50):
+def run_items(ctx, items, worker, sample_every=50, maxtasks=None):
     """Run explore work items over the pinned fork pool, fold statistics into ctx."""
     tot = collections.Counter()
     outcomes = collections.Counter()
     verdicts = collections.Counter()
     k = 0
-    for res in core.pmap(worker, items, chunksize=1, pin=True):
+    for res in core.pmap(worker, items, chunksize=1, pin=True, maxtasks=maxtasks):
         k += 1
         tot["execs"] += res["execs"]
         tot["points"] += res["points"]
@@ -214,6 +214,8 @@ def run_items(ctx, items, worker, sample_every=50):
                 ctx.violation(signature, message, replay)
         if res.get("sample") and (k % sample_every == 1):
             ctx.sample(res["sample"])
+    if verdicts.get("stuck"):
+        raise core.HarnessError("%d executions got stuck on something the scheduler does not own (real lock / real I/O)" % verdicts["stuck"])
     if verdicts.get("divergence"):
         raise core.HarnessError("%d executions diverged while replaying a prefix" % verdicts["divergence"])
     return tot, outcomes, verdicts
